@@ -33,6 +33,7 @@ type State struct {
 	defers   []deferred
 	locks    map[string]string // monitor key -> Bool term "held"
 	lockSnap map[string]*State // monitor key -> state at write-lock acquisition
+	nbLocks  map[string]string // non-blocking lock class key -> Bool term "held"
 }
 
 func newState(ep *epoch) *State {
@@ -51,6 +52,12 @@ func (s *State) clone() *State {
 		n.locks[k] = v
 	}
 	n.defers = append([]deferred{}, s.defers...)
+	if s.nbLocks != nil {
+		n.nbLocks = make(map[string]string, len(s.nbLocks))
+		for k, v := range s.nbLocks {
+			n.nbLocks[k] = v
+		}
+	}
 	if s.lockSnap != nil {
 		n.lockSnap = make(map[string]*State, len(s.lockSnap))
 		for k, v := range s.lockSnap {
